@@ -293,7 +293,7 @@ func (m *muT) isExtern(f *ssa.Function) bool {
 	}
 	if f.Pkg == m.mainPkg && f.Parent() == nil && f.Signature.Recv() == nil {
 		n := f.Name()
-		if m.extern[n] || strings.HasPrefix(n, "probe") || strings.HasPrefix(n, "site") {
+		if m.extern[n] || strings.HasPrefix(n, "probe") || strings.HasPrefix(n, "site") || strings.HasPrefix(n, "iobs") {
 			return true
 		}
 	}
